@@ -48,6 +48,8 @@ pub enum Case {
     Pair { align: usize, needle: Vec<u8>, i1: u8, i2: u8, hay: Vec<u8> },
     /// is_equal / is_prefix / is_suffix
     Eq { ax: usize, ay: usize, x: Vec<u8>, y: Vec<u8> },
+    /// finder / iterator history (C16)
+    Hist(crate::hist::History),
 }
 
 impl Case {
@@ -58,6 +60,7 @@ impl Case {
             Case::Sub { align, needle, hay } => format!("S {} {} {}", align, hex(needle), hex(hay)),
             Case::Pair { align, needle, i1, i2, hay } => format!("P {} {} {} {} {}", align, hex(needle), i1, i2, hex(hay)),
             Case::Eq { ax, ay, x, y } => format!("E {} {} {} {}", ax, ay, hex(x), hex(y)),
+            Case::Hist(h) => h.encode(),
         }
     }
 
@@ -68,6 +71,7 @@ impl Case {
             "I" => Some(Case::Iter { align: f.get(1)?.parse().ok()?, needles: unhex(f.get(2)?), hay: unhex(f.get(3)?), pattern: unhex(f.get(4)?) }),
             "S" => Some(Case::Sub { align: f.get(1)?.parse().ok()?, needle: unhex(f.get(2)?), hay: unhex(f.get(3)?) }),
             "P" => Some(Case::Pair { align: f.get(1)?.parse().ok()?, needle: unhex(f.get(2)?), i1: f.get(3)?.parse().ok()?, i2: f.get(4)?.parse().ok()?, hay: unhex(f.get(5)?) }),
+            "H" => crate::hist::History::decode(line).map(Case::Hist),
             "E" => Some(Case::Eq { ax: f.get(1)?.parse().ok()?, ay: f.get(2)?.parse().ok()?, x: unhex(f.get(3)?), y: unhex(f.get(4)?) }),
             _ => None,
         }
@@ -261,6 +265,16 @@ pub fn exec_case(c: &Case) -> String {
                     }
                 }
             }
+        }
+        Case::Hist(h) => {
+            let mut st = crate::hist::HistStats::default();
+            put(
+                "hist",
+                guarded!(match crate::hist::run_history(h, &mut st) {
+                    Ok(()) => "OK".to_string(),
+                    Err(e) => format!("ERR:{}", e.replace(' ', "_")),
+                }),
+            );
         }
         Case::Eq { ax, ay, x, y } => {
             let px = Placed::new(x, *ax);
